@@ -34,6 +34,9 @@ func vObj(kind int, p []geometry.Point) Object {
 		return NewFeature(NewPolygon(geometry.NewPoly(tri, nil, vNoIdx)), "")
 	case 11:
 		return NewFeatureCollection([]Object{NewFeature(NewPoint(p[0]), ""), NewFeature(NewLineString(geometry.NewLine([]geometry.Point{p[0], p[1]}, vNoIdx)), "")})
+	case 12: // polygon with a (triangular) hole: six positions
+		hole := []geometry.Point{p[3], p[4], p[5], p[3]}
+		return NewPolygon(geometry.NewPoly(tri, [][]geometry.Point{hole}, vNoIdx))
 	}
 	panic("bad kind")
 }
@@ -66,6 +69,9 @@ func vGeom(kind int, p []geometry.Point) geometry.Geometry {
 		return geometry.NewPoly(tri, nil, vNoIdx)
 	case 4:
 		return geometry.Segment{A: p[0], B: p[1]}.Rect()
+	case 12:
+		hole := []geometry.Point{p[3], p[4], p[5], p[3]}
+		return geometry.NewPoly(tri, [][]geometry.Point{hole}, vNoIdx)
 	}
 	return nil
 }
@@ -102,6 +108,12 @@ func vGeomIntersects(a, b geometry.Geometry) bool {
 func H_Obj_Dual(p []int) {
 	ka, kb := p[0], p[1]
 	pa, pb := vGPoints("a", 3), vGPoints("b", 3)
+	if ka == 12 {
+		pa = vGPoints("a", 6)
+	}
+	if kb == 12 {
+		pb = vGPoints("b", 6)
+	}
 	if len(p) > 2 && p[2] == 1 {
 		// concrete circle (its polygon is then computed by libm on constants, natively): the partner stays symbolic,
 		// so a mis-routed dispatch is decided against a concrete polygon instead of an opaque one
